@@ -84,6 +84,47 @@ def check(model, tier):
                 run.ok("R01.2", f"{cname}:consumes-target")
             else:
                 run.fail("R01.2", f"{cname}:consumes-target", f"the result of the {cname} arm does not depend on the executed target", fi=ex, node=p.node)
+    # the extension hook for custom operations gets the operation and the node's *target* (what the documented
+    # implementation pattern executes), not the node itself
+    from ..flow import field_access as _fa
+
+    hooks = 0
+    for p in ctx.paths(ex):
+        for j, c in path_calls(p):
+            if call_attr(c) != "apply_custom_unary_operation":
+                continue
+            hooks += 1
+            fas = [_fa(p, a, j) for a in c.args]
+            ok = len(fas) == 2 and all(x is not None and x[0] == rel for x in fas) and fas[0][1][-1:] == ("operation",) and fas[1][1][-1:] == ("target",)
+            if ok:
+                run.ok("R01.2", "custom-unary-hook:arguments")
+            else:
+                run.fail("R01.2", "custom-unary-hook:arguments", f"the custom-operation hook is called as `{src(c)[:70]}`: it must receive (<the node's operation>, <the node's target>) - given the node itself, the documented implementation (execute the target, then filter) recurses for ever", fi=ex, node=c)
+    if hooks == 0:
+        raise AnalysisError("execute() no longer hands unknown unary operations to apply_custom_unary_operation")
+    # every tree is evaluated by its own engine: foreign relations are refused up front, and the upstream tree of a
+    # transfer between iteration engines is executed by the engine it lives in (its functions, its custom operations)
+    guard_ok = any(
+        p.outcome == "raise" and p.raises("EngineError") and has_fact(path_facts(p), "EQ", tuple(sorted((f"{rel}.engine", "self"))), False) and not any(s.kind == "case" for s in p.steps)
+        for p in ctx.paths(ex)
+    )
+    if guard_ok:
+        run.ok("R01.2", "execute:own-engine-only")
+    else:
+        run.fail("R01.2", "execute:own-engine-only", f"execute() does not refuse (EngineError) a relation whose engine is not this engine (`{rel}.engine != self`) before anything else", fi=ex)
+    tarms = _arm(ctx, ex, "Transfer", rel)
+    for i, p in tarms:
+        v = p.value
+        if not (isinstance(v, ast.Call) and call_attr(v) == "execute"):
+            continue
+        recv = v.func.value if isinstance(v.func, ast.Attribute) else None
+        fa_arg = _fa(p, v.args[0]) if v.args else None
+        fa_recv = _fa(p, recv) if recv is not None else None
+        ok = fa_arg is not None and fa_arg[1][-1:] == ("target",) and fa_recv is not None and fa_recv == (fa_arg[0], fa_arg[1] + ("engine",))
+        if ok:
+            run.ok("R01.2", "execute:Transfer:source-engine-executes")
+        else:
+            run.fail("R01.2", "execute:Transfer:source-engine-executes", f"the Transfer arm evaluates the source tree with `{src(v)[:60]}`: it must be <target>.engine.execute(<target>) - the source engine's function registry and custom operations define what the tree means", fi=ex, node=p.node)
     # sort terms: expression and direction of every term
     for i, p in _arm(ctx, ex, "Sort"):
         sl = backward_slice(p, [p.value], start=i, control=True)
@@ -312,6 +353,12 @@ def check(model, tier):
             grp = src(tgt[1]) if len(tgt) == 2 else ""
             ok_group = ok_group and any(src(n.generators[0].iter) == grp and not n.generators[0].ifs and "expression" in src(n.elt) and "convert_column_expression" in src(n.elt) for n in inner)
             ok_group = ok_group and isinstance(gdef.elt, ast.Tuple) and len(tgt) == 2 and src(gdef.elt.elts[0]) == src(tgt[0])
+        from ..paths import _binds as _pbinds
+
+        rebound = [s for s in p.steps[i + 1 :] if s.kind == "stmt" and terms_v in _pbinds(s)]
+        if rebound:
+            ok_group = False
+            run.fail("R01.5", "sort:terms-as-given", f"the Sort arm re-binds `{terms_v}` (`{src(rebound[0].node)[:70]}`) before sorting: the passes no longer run over the operation's own terms, in order, each with its own direction", fi=ex, node=rebound[0].node)
         if ok_group:
             run.ok("R01.5", "sort:groups")
         else:
